@@ -174,6 +174,43 @@ return ok
 """
         out.append(mk_case(f"c18.add.cast_and_doc.{root}", [("t", "int"), ("u1", "Union[int, bool, None]"), ("u2", "int")], body,
                            pre=[f"BU({L}, t, u1, u2)"], stubs=["sym_repr"]))
+    body = f"""
+{expect_block()}
+S_T = {terms_src(S_RULES, ['sp', 'sab'])}
+T_T = {terms_src(T_RULES, ['tp', 'tq'])}
+R = {ROOTS['a']}
+doc = {DOC}
+base = build(S_T)
+S1, S2 = Schema(base), Schema(base)
+t_list = build(T_T)
+T, T2 = Schema(t_list), Schema(t_list)
+clone = Schema(T.rules)
+S1.add_schema(T, build_path(R))
+ok = same('S1 extended', observed(S1.validate(doc)), expected(S_T, [(R, T_T)], doc))
+ok = ok and same('S2 (built from the same list) unaffected', observed(S2.validate(doc)), expected(S_T, [], doc)) and note('S2 rule count', len(S2.rules) == 2)
+ok = ok and note('the list handed in is unaffected', len(base) == 2 and len(t_list) == 2)
+clone.add_schema(T2, build_path(R))
+ok = ok and same('T unaffected by extending its clone', observed(T.validate(doc['a'])), expected(T_T, [], doc['a'])) and note('T rule count', len(T.rules) == 2 and len(T2.rules) == 2)
+return ok
+"""
+    out.append(mk_case("c18.seq.shared_rule_list", [("t", "int"), ("u1", U), ("u2", "int")], body, pre=[f"BU({L}, t, u1, u2)"], stubs=["sym_repr"]))
+    # the root is a prefix of T's own rule paths; an already combined schema added again under the same name
+    body = f"""
+{expect_block()}
+T_T = [((('prim', 'a'), ('prim', 'p')), V('greater_than', t)), ((('prim', 'a'),), V('is_instance', dict))]
+R = (('prim', 'a'),)
+doc = {{'a': {{'a': {{'p': u2, 'a': {{'p': u1}}}}, 'p': u1}}, 'p': 0}}
+S, T = Schema([]), Schema(build(T_T))
+S.add_schema(T, build_path(R))
+ok = same('root is a prefix of the added paths', observed(S.validate(doc)), expected([], [(R, T_T)], doc))
+ok = ok and note('re-rooted path lengths', sorted(len(r.path) for r in S.rules) == [2, 3])
+outer = Schema([])
+outer.add_schema(S, build_path(R))
+ok = ok and same('added again under the same name', observed(outer.validate(doc)), expected([], [(R + R, T_T)], doc))
+ok = ok and same('T still validates as built', observed(T.validate(doc)), expected(T_T, [], doc))
+return ok
+"""
+    out.append(mk_case("c18.add.root_is_prefix", [("t", "int"), ("u1", "Union[int, bool, None]"), ("u2", "int")], body, pre=[f"BU({L}, t, u1, u2)"], stubs=["sym_repr"]))
     for t, r1, r2 in [(["tp"], "a", "b"), (["tp", "tq"], "a", "ar"), (["troot"], "a", "empty"), (["tp"], "lfan", "a")]:
         out.append(seq_case(t, r1, r2, "same_s", L))
         out.append(seq_case(t, r1, r2, "two_s", L))
